@@ -1,0 +1,10 @@
+//go:build verif
+
+package containers
+
+// Machine-checked contracts, read by the govc verifier under /verif. Comment-only.
+
+//@ func (dht/containers.closerThanTarget).Compare
+//@   ensures less: (result == -1) == closer(l, r, me.target)
+//@   ensures greater: (result == 1) == (!closer(l, r, me.target) && closer(r, l, me.target))
+//@   ensures equal: (result == 0) == (!closer(l, r, me.target) && !closer(r, l, me.target))
